@@ -43,6 +43,11 @@ CLAIMED["C10"] = dict(
    text="Exploration: 12 (quick) / 80 (thorough) seeded trivia variants of every corpus text (trailing whitespace, trailing / own-line / column-0 / multi-line comments, blank lines with and without stray indentation, inline comments) must parse to the identical canonical syntax tree; 15k / 200k generated programs of three profiles are printed under two random layout vectors (inline vs block forms, quote style, call parentheses, operator line breaks, comments, blank lines) which must behave identically, agree with the reference interpreter and parse to the same tree modulo cosmetic fields; every line prefix of each program is classified (header awaiting a block / trailing `=` or operator => is_indentation_error; top-level statement boundary => compiles).",
    note="Trusts the printer's notion of admissible layouts (one statement per line, continuation lines strictly deeper for each further break, no breaks inside headers) and the Debug-rendering-based canonical AST. Cuts not listed by the statement are not judged.",
    design="§4 C10")
+CLAIMED["C11"] = dict(
+   technique="round-trip / metamorphic property-based testing of the formatter over corpus, generated and mutated programs x an option grid (re-parse to canonical AST, bytecode equality, behaviour equality, comment and literal preservation, idempotence)",
+   text="Exploration: the corpus and 8 Unicode stress texts x 6 (quick) / all 160 (thorough) formatter option combinations, 5k / 80k generated programs of three profiles in random spellings, and a seeded sample of corpus mutants that still parse: format() must return Ok without panicking; output must parse to the same canonical tree (modulo cosmetic fields), compile to the same bytecode and constants, behave identically when runnable, keep every comment in order, keep every number / string literal token, and be a fixed point of format(). Mutants are judged for totality, comments and literals only.",
+   note="The pinned formatter has pervasive defects whenever it has to break lines; those cases are keyed to the known finding C11-line-breaks by an input/option predicate (line does not fit after re-indentation, line_length <= 40, chain_break_threshold <= 1, input already breaks inside an expression), so the strict clauses effectively cover programs that fit on their lines. Other known shapes: wildcard import, format-spec representation, odd-width characters, leading-minus line, blank line after a function header.",
+   design="§4 C11")
 NOT_YET = {}
 props=[json.loads(l) for l in open('/verif/properties.jsonl')]
 checks=[]; na=[]
